@@ -27,6 +27,88 @@ type Profile struct {
 	KeepPct      int // % of histories over a storage that does not rotate refresh tokens
 	TwinPct      int // % of flows that run two authorization requests and redeem the second code with omissions right after the first
 	OmitPct      int // % of refresh steps followed at once by the same request with something omitted
+	OtherAuthPct int // % of histories in which a client is registered with an auth method the library has no name for
+	LoudPct      int // % of histories over a storage that returns a value next to the error of a refused lookup
+	RevokePct    int // % of flows in which the storage lets the current refresh token expire
+	OddScopePct  int // % of flows with a refresh whose scope string has empty entries / tabs
+}
+
+func confidential(c ClientInfo) bool { return c.Auth == "basic" || c.Auth == "post" || c.Auth == "other" }
+
+// weakCred: c's own identity without a valid proof (for a public client: another client's id)
+func (g *gen) weakCred(c ClientInfo) (Cred, string) {
+	if !confidential(c) || len(c.Secret) == 0 || g.r.Chance(1, 4) {
+		return g.omitted(c)
+	}
+	switch g.r.IntN(4) {
+	case 0:
+		return Cred{Kind: "post", ID: c.ID}, "id-only"
+	case 1:
+		return Cred{Kind: "basic", ID: c.ID, Sec: c.Secret + "x"}, "wrong-secret"
+	case 2:
+		return Cred{Kind: "post", ID: c.ID, Sec: drv.Pick(g.r, []string{c.Secret + "x", strings.ToUpper(c.Secret), "null", c.Secret[:len(c.Secret)-1]})}, "wrong-secret"
+	default:
+		return Cred{Kind: "basic", ID: c.ID, FormID: c.ID}, "id-only"
+	}
+}
+
+// oddScopes: a scope list as strings.Split(value, " ") yields it for a value with doubled, leading
+// or trailing blanks (empty entries) or tabs (no separator: part of the entry), built around the
+// granted list, mostly with a never-granted scope somewhere after the oddity.
+func (g *gen) oddScopes(granted []string) ([]string, string) {
+	base := distinct(granted)
+	if len(base) > 1 && g.r.Bool() {
+		base = subsetOf(g.r, base)
+	}
+	out := append([]string{}, base...)
+	foreign := notIn(granted)
+	k := g.r.IntN(8)
+	switch k {
+	case 0: // scope= (present, empty)
+		return []string{""}, "scope-empty-value"
+	case 1: // trailing blank
+		out = append(out, "")
+	case 2: // leading blank
+		out = append([]string{""}, out...)
+	case 3, 4: // doubled blank somewhere
+		at := g.r.IntN(len(out) + 1)
+		out = append(append(append([]string{}, out[:at]...), ""), out[at:]...)
+		if g.r.Bool() {
+			out = append(append(append([]string{}, out[:at]...), ""), out[at:]...)
+		}
+	case 5: // a tab instead of a blank: one entry
+		if len(out) >= 2 {
+			out = append([]string{out[0] + "\t" + out[1]}, out[2:]...)
+		} else {
+			out[0] = out[0] + "\t"
+		}
+		return out, "scope-tab"
+	case 6: // tab-prefixed foreign scope
+		if len(foreign) > 0 {
+			out = append(out, "\t"+drv.Pick(g.r, foreign))
+		}
+		return out, "scope-tab"
+	default: // only blanks
+		return []string{"", ""}, "scope-only-blanks"
+	}
+	mut := "scope-empty-entry"
+	if len(foreign) > 0 && g.r.Chance(3, 4) { // what follows the oddity was never granted
+		pos := 0
+		for i, x := range out {
+			if x == "" {
+				pos = i + 1
+			}
+		}
+		f := drv.Pick(g.r, foreign)
+		if g.r.Bool() || pos >= len(out) {
+			out = append(out, f)
+		} else {
+			at := pos + g.r.IntN(len(out)-pos+1)
+			out = append(append(append([]string{}, out[:at]...), f), out[at:]...)
+		}
+		mut = "scope-empty-entry-then-foreign"
+	}
+	return out, mut
 }
 
 var places = []string{"query", "grant-query", "grant-conflict", "field-conflict"}
@@ -206,9 +288,12 @@ func (g *gen) client(id string) ClientInfo {
 
 func legitCred(r drv.Rand, c ClientInfo) Cred {
 	switch c.Auth {
-	case "basic", "post":
+	case "basic", "post", "other":
 		// the library accepts header and body for both registrations
 		kind := c.Auth
+		if kind == "other" {
+			kind = drv.Pick(r, []string{"basic", "post"})
+		}
 		if r.Chance(1, 4) {
 			if kind == "basic" {
 				kind = "post"
@@ -281,7 +366,7 @@ func (g *gen) badCred(c ClientInfo) (Cred, string) {
 		o := g.otherClient(c.ID)
 		return legitCred(g.r, o), "cross-client"
 	case 4:
-		if c.Auth == "basic" || c.Auth == "post" {
+		if confidential(c) && c.Secret != "" {
 			if g.r.Chance(1, 4) { // the right secret under a look-alike id
 				return Cred{Kind: drv.Pick(g.r, []string{"basic", "post"}), Sec: c.Secret,
 					ID: drv.Pick(g.r, []string{strings.ToUpper(c.ID), c.ID + " ", " " + c.ID, c.ID + "/", strings.ToUpper(c.ID[:1]) + c.ID[1:]})}, "near-miss-client-id"
@@ -337,6 +422,13 @@ func notIn(s []string) []string {
 func (g *gen) newFlow(routerMode int) *flow {
 	f := &flow{}
 	f.cl = drv.Pick(g.r, g.w.Clients)
+	if len(g.w.Opts.AuthOther) > 0 && g.r.Chance(3, 5) { // the oddly registered client
+		for _, c := range g.w.Clients {
+			if _, ok := g.w.Opts.AuthOther[c.ID]; ok && (f.cl.Auth != "other" || g.r.Bool()) {
+				f.cl = c
+			}
+		}
+	}
 	f.uri = drv.Pick(g.r, f.cl.Redirects)
 	for _, u := range f.cl.Redirects { // loopback redirects (RFC 8252) are the delicate ones
 		if strings.HasPrefix(u, "http://127.") && g.r.Bool() {
@@ -472,6 +564,12 @@ func (g *gen) newFlow(routerMode int) *flow {
 	if g.r.Chance(1, 5) || (strings.HasPrefix(f.uri, "http://127.") && g.r.Bool()) {
 		plan = append(plan, "code-nearmiss") // everything right except a look-alike redirect_uri
 	}
+	if f.cl.Auth == "other" && g.r.Chance(3, 4) {
+		plan = append(plan, "code-weak") // its own id without a valid secret, everything else right
+		if g.r.Bool() {
+			plan = append(plan, "code-weak")
+		}
+	}
 	if f.ro == "ok" && f.method != "" && g.r.Chance(3, 4) {
 		plan = append(plan, "code-pkce") // the PKCE parameters travelled (partly) in the Request Object: they are in force
 	}
@@ -510,8 +608,21 @@ func (g *gen) newFlow(routerMode int) *flow {
 		}
 		plan = append(plan, "refresh")
 	}
+	if nref > 0 && f.cl.Auth == "other" && g.r.Chance(2, 3) {
+		plan = append(plan, "refresh-weak", "refresh")
+	}
+	if nref > 0 && g.r.Chance(g.p.OddScopePct, 100) {
+		plan = append(plan, "refresh-odd-scope", "refresh-verify")
+	}
 	if nref > 0 && g.r.Chance(2, 5) {
 		plan = append(plan, drv.Pick(g.r, []string{"refresh-replay", "refresh-attack"}))
+	}
+	if nref > 0 && g.r.Chance(g.p.RevokePct, 100) {
+		// the storage lets the current token expire; it stays refused whoever presents it
+		plan = append(plan, "revoke-rt", "refresh-revoked")
+		if g.r.Bool() {
+			plan = append(plan, drv.Pick(g.r, []string{"refresh-revoked", "refresh-foreign"}))
+		}
 	}
 	if nref > 0 && g.r.Chance(1, 3) {
 		// another, correctly authenticated client presents this flow's token (refused), then the owner
@@ -692,6 +803,36 @@ func (g *gen) step(f *flow) {
 		o := g.honestCode(f)
 		o.URI, o.Mut = nearMiss(g.r, f.uri), "near-miss-uri"
 		g.settle(f, o, g.do(o))
+	case "code-weak":
+		o := g.honestCode(f)
+		o.Cred, o.Mut = g.weakCred(f.cl)
+		g.settle(f, o, g.do(o))
+	case "refresh-weak":
+		if last(f.rts) == 0 {
+			return
+		}
+		o := g.honestRefresh(f)
+		o.Cred, o.Mut = g.weakCred(f.cl)
+		g.settle(f, o, g.do(o))
+	case "refresh-odd-scope":
+		if last(f.rts) == 0 || len(f.granted) == 0 {
+			return
+		}
+		o := g.honestRefresh(f)
+		o.Scopes, o.Mut = g.oddScopes(f.granted)
+		g.settle(f, o, g.do(o))
+	case "revoke-rt":
+		if last(f.rts) == 0 {
+			return
+		}
+		g.do(Op{Kind: "revoke", Router: g.rt(f), RT: last(f.rts), Mut: "refresh-token-expired"})
+	case "refresh-revoked":
+		if last(f.rts) == 0 {
+			return
+		}
+		o := g.honestRefresh(f)
+		o.Mut = "revoked-rt"
+		g.settle(f, o, g.do(o))
 	case "code-pkce":
 		o := g.honestCode(f)
 		switch g.r.IntN(4) {
@@ -814,7 +955,7 @@ func (g *gen) step(f *flow) {
 			o2.URI, o2.Mut = "", "omit-redirect-uri"
 		case k < 8 && f.method != "": // the same challenge was verified a moment ago - with another verifier
 			o2.Ver, o2.Mut = g.nearVerifier(f.verifier), "wrong-verifier-after-success"
-		case k < 9 && (f.cl.Auth == "basic" || f.cl.Auth == "post"): // the same client authenticated a moment ago
+		case k < 9 && confidential(f.cl): // the same client authenticated a moment ago
 			o2.Cred, o2.Mut = Cred{Kind: drv.Pick(g.r, []string{"basic", "post"}), ID: f.cl.ID, Sec: f.cl.Secret + "x"}, "wrong-secret-after-success"
 		case k < 10:
 			o2.URI, o2.Mut = nearMiss(g.r, f.uri), "near-miss-uri-after-success"
@@ -847,7 +988,7 @@ func (g *gen) step(f *flow) {
 		switch k := g.r.IntN(8); {
 		case k == 0:
 			o2.RT, o2.Mut = 0, "omit-refresh-token"
-		case k == 1 && (f.cl.Auth == "basic" || f.cl.Auth == "post"): // the same client authenticated a moment ago
+		case k == 1 && confidential(f.cl): // the same client authenticated a moment ago
 			o2.Cred, o2.Mut = Cred{Kind: drv.Pick(g.r, []string{"basic", "post"}), ID: f.cl.ID, Sec: f.cl.Secret + "x"}, "wrong-secret-after-success"
 		default:
 			o2.Cred, o2.Mut = g.omitted(f.cl)
@@ -900,11 +1041,16 @@ func (g *gen) step(f *flow) {
 			return
 		}
 		o := g.honestRefresh(f)
-		pick := g.r.IntN(10)
+		pick := g.r.IntN(11)
 		if len(distinct(f.granted)) < len(f.granted) && g.r.Bool() {
 			pick = 5
 		}
+		if pick == 10 && len(f.granted) == 0 {
+			pick = 7
+		}
 		switch pick {
+		case 10:
+			o.Scopes, o.Mut = g.oddScopes(f.granted)
 		case 0, 1, 2:
 			o.Cred, o.Mut = g.badCred(f.cl)
 			if d := distinct(f.granted); len(d) >= 2 && g.r.Bool() { // with a proper subset of the grant
@@ -964,6 +1110,22 @@ func Generate(r drv.Rand, p Profile) (*History, error) {
 	o.LiveGrants = r.Chance(2, 3)
 	o.KeepRT = r.Chance(p.KeepPct, 100)
 	o.NoReqObj = r.Chance(1, 16)
+	o.Loud = r.Chance(p.LoudPct, 100)
+	if r.Chance(p.OtherAuthPct, 100) {
+		o.AuthOther = map[string]string{}
+		id := drv.Pick(r, []string{"web", "web2", "web", "web2", "web", "web2", "pkjwt", "native"})
+		m := drv.Pick(r, OtherAuthMethods)
+		switch id {
+		case "pkjwt":
+			m = drv.Pick(r, []string{"Private_Key_JWT", "PRIVATE_KEY_JWT", "private_key_jwt "})
+		case "native":
+			m = drv.Pick(r, []string{"NONE", "None", "none ", ""})
+		}
+		o.AuthOther[id] = m
+		if r.Chance(1, 4) {
+			o.AuthOther[map[string]string{"web": "web2", "web2": "web", "pkjwt": "web", "native": "web2"}[id]] = drv.Pick(r, OtherAuthMethods)
+		}
+	}
 	o.NoPost = r.Chance(1, 16)
 	o.NoPKJWT = r.Chance(1, 16)
 	ids := []string{"web", "web2", "native", "spa", "pkjwt"}
@@ -992,6 +1154,13 @@ func Generate(r drv.Rand, p Profile) (*History, error) {
 	}
 	if o.NoReqObj {
 		g.tag("reqobj=off")
+	}
+	if o.Loud {
+		g.tag("storage=value-with-error")
+	}
+	for id, m := range o.AuthOther {
+		g.tag("auth_method_other=" + id)
+		g.tag("auth_method=" + strings.ReplaceAll("'"+m+"'", " ", "_"))
 	}
 	if o.NoPost {
 		g.tag("post=off")
